@@ -2,7 +2,7 @@
 """Saturation of the C05 known-finding set (DESIGN 3.3 'closure under seeds').
 
   saturate.py <cases.ndjson> <tier> <seed_lo> <seed_hi> [arch-filter]   run the driver directly
-      (no TLC stages) for every seed and print / accumulate the distinct (entry, outcome, key)
+      (no TLC stages) for every seed and print / accumulate the distinct (entry, outcome, key, role)
       classes of non-ok outcomes into selftest/C05/classes.json
   saturate.py --emit   merge classes.json into known_findings.d/C05.json (existing entries keep
       their id / what / status; new classes get the next free id)
@@ -19,12 +19,13 @@ KF = os.path.join(VERIF, "known_findings.d/C05.json")
 
 
 def classes_of(summary):
+    """class = (entry, outcome, key, role); role only discriminates huge allocations ('*' for the rest)"""
     g = {}
     for x in summary["nonok"]:
-        e, o, k, f = [s.strip() for s in x["sig"].split(" | ", 3)]
-        c = g.setdefault((e, o, k), {"n": 0, "fields": set()})
+        role = x["role"] if x["outcome"] == "hugealloc" else "*"
+        c = g.setdefault((x["entry"], x["outcome"], x["key"], role), {"n": 0, "fields": set()})
         c["n"] += x["n"]
-        c["fields"].add(f)
+        c["fields"].add(f'{x["format"]}/{x["field"]}')
     return g
 
 
@@ -96,14 +97,14 @@ NOTES = {
 
 
 def generalise(acc):
-    """class-level signatures: (entry set, outcome, key pattern). Arithmetic-overflow panics of one file are
+    """class-level signatures: (entry set, outcome, key pattern, role). Arithmetic-overflow panics of one file are
     one class per entry; keys reached through Archive::read_file are shared by open/list/read_file."""
     groups = {}
-    for (e, o, key), v in acc.items():
+    for (e, o, key, role), v in acc.items():
         m = OVERFLOW.match(key) if o == "panic" else None
         gkey = ("re", m.group(1)) if m else ("eq", key)
         ent = "MPQ-READ" if e in MPQ_READ_PATH else e
-        g = groups.setdefault((ent, o, gkey), {"n": 0, "fields": set(), "entries": set()})
+        g = groups.setdefault((ent, o, gkey, role), {"n": 0, "fields": set(), "entries": set()})
         g["n"] += v["n"]
         g["fields"] |= set(v["fields"])
         g["entries"].add(e)
@@ -113,21 +114,30 @@ def generalise(acc):
 def emit():
     acc = load_acc()
     old = json.load(open(KF))["findings"] if os.path.exists(KF) else []
-    status = {json.dumps(f["match"], sort_keys=True): f.get("status", "known") for f in old}
-    out = []
-    for n, ((ent, o, (kind, key)), g) in enumerate(sorted(generalise(acc).items(), key=lambda kv: (kv[0][0], kv[0][1], kv[0][2][1])), 1):
+    fixed = [f for f in old if f.get("status") == "fixed"]          # kept verbatim; fixed entries suppress nothing
+    nxt = 1 + max([int(f["id"].split("-")[1]) for f in old] or [0])
+    nxt = max(nxt, 101)
+    keep_id = {json.dumps(f["match"], sort_keys=True): f["id"] for f in old if f.get("status") != "fixed"}
+    out = list(fixed)
+    for (ent, o, (kind, key), role), g in sorted(generalise(acc).items(), key=lambda kv: (kv[0][0], kv[0][1], kv[0][2][1], kv[0][3])):
         entry = {"in": MPQ_READ_PATH} if ent == "MPQ-READ" else ent
         kpat = {"re": "^" + re.escape(key) + ": attempt to (add|subtract|multiply|shift left|shift right|negate) with overflow$"} if kind == "re" else key
         match = {"entry": entry, "outcome": o, "key": kpat}
+        if o == "hugealloc":
+            match["role"] = role
         note = next((t for k, t in NOTES.items() if key.startswith(k) or (k in key and k.startswith("implode"))), "")
         shown = key + (": arithmetic overflow (debug-build panic; wraps in release)" if kind == "re" else "")
-        what = (f"{'/'.join(sorted(g['entries']))}: {o} " + ("at " if o == "panic" else "requested by ") + shown +
+        what = (f"{'/'.join(sorted(g['entries']))}: {o} " + ("at " if o == "panic" else f"via {role} fields, requested by ") + shown +
                 (f" -- {note}" if note else "") + f" (e.g. {', '.join(sorted(g['fields']))[:160]})")
         ename = "Archive-read-path" if ent == "MPQ-READ" else ent
-        out.append({"property": "C05", "id": f"C05-{n:03d}-{slug(ename + '-' + o)}",
-                    "status": status.get(json.dumps(match, sort_keys=True), "known"), "match": match, "what": what})
+        mk = json.dumps(match, sort_keys=True)
+        fid = keep_id.get(mk)
+        if not fid:
+            fid = f"C05-{nxt:03d}-{slug(ename + '-' + o)}"
+            nxt += 1
+        out.append({"property": "C05", "id": fid, "status": "known", "match": match, "what": what})
     json.dump({"findings": out}, open(KF, "w"), indent=1)
-    print(f"{KF}: {len(out)} findings from {len(acc)} observed classes")
+    print(f"{KF}: {len(out)} findings ({len(fixed)} fixed kept) from {len(acc)} observed classes")
 
 
 if __name__ == "__main__":
